@@ -69,6 +69,15 @@ func (n *LocalNode) stabilize() error {
 		succList = succList[1:]
 	}
 
+	if len(succList) == 0 {
+		// every node of the list has departed since the last round (more consecutive successors left than the
+		// list has entries): the list alone can no longer find the ring. Start over from the nearest live node we
+		// still know of (finger table, predecessor), stabilization then walks back to the true successor; when
+		// nobody else is known to be alive we are the only node left
+		succList = []chord.VNode{n.nearestLiveNode()}
+		modified = true
+	}
+
 	// the list wraps around the ring once it reaches ourselves: whatever follows is more than a full
 	// circle away (in a ring smaller than the list those slots otherwise keep passing departed nodes
 	// from neighbour to neighbour forever)
@@ -96,6 +105,28 @@ func (n *LocalNode) stabilize() error {
 	}
 
 	return nil
+}
+
+// nearestLiveNode returns the first reachable node clockwise after ourselves among the finger table entries
+// and the predecessor, or ourselves when there is none.
+func (n *LocalNode) nearestLiveNode() chord.VNode {
+	known := make([]chord.VNode, 0, chord.MaxFingerEntries+1)
+	n.fingerRangeView(func(_ int, f chord.VNode) bool {
+		known = append(known, f)
+		return true
+	})
+	known = append(known, n.getPredecessor())
+
+	var nearest chord.VNode = n
+	for _, c := range known {
+		if c == nil || c.ID() == n.ID() || !chord.Between(n.ID(), c.ID(), nearest.ID(), false) {
+			continue
+		}
+		if c.Ping() == nil {
+			nearest = c
+		}
+	}
+	return nearest
 }
 
 func (n *LocalNode) updateSuccessorsList(listHash uint64, succList []chord.VNode) {
